@@ -3,6 +3,7 @@ package main
 import (
 	"bytes"
 	"compress/gzip"
+	"encoding/json"
 	"fmt"
 	"github.com/stevenh/tracktools/pkg/gopro"
 	"go/ast"
@@ -182,6 +183,40 @@ func clToml(kvs []clKV) string {
 	}
 	emit(root, nil)
 	return b.String()
+}
+
+// clJSON renders the same settings as a JSON document (a config file is a config file: viper
+// picks the format by the file's extension).
+func clJSON(kvs []clKV) string {
+	root := map[string]any{}
+	for i := range kvs {
+		parts := strings.Split(kvs[i].key, ".")
+		n := root
+		for _, p := range parts[:len(parts)-1] {
+			if _, ok := n[p].(map[string]any); !ok {
+				n[p] = map[string]any{}
+			}
+			n = n[p].(map[string]any)
+		}
+		var v any
+		switch kvs[i].kind {
+		case "s", "d":
+			v = unhexStr(kvs[i].val)
+		case "l":
+			items := clItems(kvs[i].val)
+			if items == nil {
+				items = []string{}
+			}
+			v = items
+		case "b":
+			v = unhexStr(kvs[i].val) == "true"
+		default:
+			v = json.RawMessage(unhexStr(kvs[i].val))
+		}
+		n[parts[len(parts)-1]] = v
+	}
+	b, _ := json.Marshal(root)
+	return string(b)
 }
 
 var clCfgRe = regexp.MustCompile(`Loaded config .*?cfg=(?:\x1b\[[0-9;]*m)*("(?:[^"\\]|\\.)*")`)
@@ -464,8 +499,13 @@ func clRun(cfg *config, toks []string) string {
 	args := []string{"-v", "-v"}
 	switch which {
 	case "explicit":
-		os.WriteFile(filepath.Join(root, "my.toml"), []byte(clToml(conf)), 0o644)
-		args = append(args, "--config", filepath.Join(root, "my.toml"))
+		if cvField(toks, "cf") == "json" {
+			os.WriteFile(filepath.Join(root, "my.json"), []byte(clJSON(conf)), 0o644)
+			args = append(args, "--config", filepath.Join(root, "my.json"))
+		} else {
+			os.WriteFile(filepath.Join(root, "my.toml"), []byte(clToml(conf)), 0o644)
+			args = append(args, "--config", filepath.Join(root, "my.toml"))
+		}
 	case "missing":
 		args = append(args, "--config", filepath.Join(root, "absent.toml"))
 	case "cwd":
@@ -615,7 +655,7 @@ func clRun(cfg *config, toks []string) string {
 		}
 		line = strings.TrimSpace(line)
 		switch {
-		case strings.HasSuffix(line, "my.toml"):
+		case strings.HasSuffix(line, "my.toml"), strings.HasSuffix(line, "my.json"):
 			used = "explicit"
 		case strings.HasPrefix(line, home):
 			used = "home"
@@ -773,7 +813,8 @@ func clValue(r *rng, cmd string, o clOpt, src int) string {
 		case "outputtemplate":
 			return hexStr(pick(r, []string{"{{.Name}}-JOINED{{.Ext}}", "x{{.Ext}}"}))
 		}
-		return hexStr(pick(r, []string{"", "Goodwood", "Brands <Hatch>", "a b", `q"t`, "ü", fmt.Sprintf("v%d-%d", src, r.intn(100))}))
+		// (values are taken literally: white space at either end, or nothing but white space, included)
+		return hexStr(pick(r, []string{"", "Goodwood", "Brands <Hatch>", "a b", `q"t`, "ü", " Cup Car", "Works Car #7 ", " ", "two\nlines\n", fmt.Sprintf("v%d-%d", src, r.intn(100))}))
 	case "b":
 		return hexStr(pick(r, []string{"true", "false"}))
 	case "i":
@@ -877,7 +918,7 @@ func genCL(cfg *config, r *rng, i int, s *sink) string {
 	}
 	switch cmd {
 	case "convert":
-		text, _ := cvLog(r, s, 2, 4, false, 1653983971)
+		text, _ := cvLog(r, s, 5, 4, false, 1653983971) // up to six laps: three and more give a database with laps in it
 		if r.chance(1, 4) {
 			// data that cannot be decoded: the failure happens after the output has been opened
 			text = pick(r, []string{
@@ -937,6 +978,9 @@ func genCL(cfg *config, r *rng, i int, s *sink) string {
 		}
 		in = hexStr(strings.Join(pts, ";"))
 	}
+	if which == "explicit" && r.chance(1, 4) {
+		io += " cf=json" // the same settings as a JSON document
+	}
 	tz := ""
 	if r.chance(1, 2) {
 		tz = " tz=" + pick(r, []string{"America/New_York", "Asia/Kolkata", "Pacific/Auckland", "America/Los_Angeles", "Europe/London"})
@@ -970,6 +1014,12 @@ func corpusCL(cfg *config) []string {
 		"cl cmd=gopro.laptimes which=explicit F=~ C=gopro.laptimes.start.latitude:f:" + hexStr("-16.8") + ",gopro.laptimes.start.longitude:f:" + hexStr("179.99996") +
 			",gopro.laptimes.start.bearing:f:" + hexStr("0") + ",gopro.laptimes.start.distance:i:" + hexStr("10") + ",gopro.laptimes.tolerance:f:" + hexStr("0.5") +
 			" H=~ io=ff in=" + hexStr("-16.8000000,179.9999600;-16.8000000,-179.9999800"),
+		// a start date is a calendar day, whatever the user's time zone; a log with timed laps
+		"cl cmd=convert which=none F=start-date:d:" + hexStr("2022-06-10") + " C=~ H=~ io=fo tz=America/New_York in=" + hexStr(cvDecoy),
+		"cl cmd=convert which=none F=start-date:d:" + hexStr("2022-06-10") + ",vehicle:s:" + hexStr(" Cup Car ") + " C=~ H=~ io=so tz=Pacific/Auckland in=" + hexStr(cvDecoy),
+		// the settings as a JSON document given with --config
+		"cl cmd=convert which=explicit F=note:s:- C=convert.decoder:s:" + hexStr("trackaddict") + ",convert.encoder:s:" + hexStr("laptimer") + ",convert.track:s:" + hexStr("FromJSON") +
+			",convert.note:s:" + hexStr("a note") + ",convert.compress:b:" + hexStr("true") + " H=~ io=so cf=json in=" + hexStr("Time,UTC Time,Lap,GPS_Update,Latitude,Longitude\n0.010,1653983971.010,0,1,50.1,-0.7\n"),
 		// and against the embedded default (no config file anywhere)
 		"cl cmd=gopro.render which=none F=distance:f:" + hexStr("25.5") + " C=~ H=~ io=ff in=-",
 		// an empty flag value beats the config file
